@@ -51,7 +51,7 @@ MANIFEST = {
 
 GEN = os.path.join(vlib.LEAN, "GuppyVerif", "Gen", "C32SyntaxCoverage.lean")
 CATS = ["stmt", "expr", "prod", "pattern", "excepthandler", "type_param"]
-VIS = ["CFGBuilder", "ExprBuilder", "BranchBuilder", "StmtChecker", "ExprSynthesizer", "ExprChecker", "AssignTarget", "aux"]
+VIS = ["CFGBuilder", "ExprBuilder", "BranchBuilder", "StmtChecker", "ExprSynthesizer", "ExprChecker", "AssignTarget", "ModifierItem", "aux"]
 
 
 def _cat(c, kind):
@@ -177,6 +177,15 @@ def translate(ctx):
         with open(GEN, "w") as f:
             f.write(txt)
     ctx._c32_tab = tab
+    ctx._c32_txt = txt
+
+
+def _ensure_gen(ctx):
+    """another process may have restored the committed baseline of Gen/ (`git checkout`) since translate ran"""
+    txt = getattr(ctx, "_c32_txt", None)
+    if txt is not None and (not os.path.exists(GEN) or open(GEN).read() != txt):
+        with open(GEN, "w") as f:
+            f.write(txt)
 
 
 
@@ -301,10 +310,26 @@ PROBES = [
     ("Subscript", "value", "t = (1, 2)\nu = (3, 4)\nreturn t[0]", "t = (1, 2)\nu = (3, 4)\nreturn u[0]"),
     ("Tuple", "elts", "t = (1, x)\nreturn t[0]", "t = (1, x, 2)\nreturn t[0]"),
     ("Name", "id", "y = 1\nreturn x", "y = 1\nreturn y"),
+    # modifier items (`with <modifier call>:`): the call is consumed by CFGBuilder._handle_withitem
+    ("Call", "keywords", "q0 = qubit()\nc0 = qubit()\nc1 = qubit()\nwith control(c0, extra=1):\n    h(q0)\ndiscard(q0)\ndiscard(c0)\ndiscard(c1)\nreturn x", "q0 = qubit()\nc0 = qubit()\nc1 = qubit()\nwith control(c0):\n    h(q0)\ndiscard(q0)\ndiscard(c0)\ndiscard(c1)\nreturn x"),
+    ("Call", "keywords", "q0 = qubit()\nc0 = qubit()\nc1 = qubit()\nwith dagger(k=1):\n    h(q0)\ndiscard(q0)\ndiscard(c0)\ndiscard(c1)\nreturn x", "q0 = qubit()\nc0 = qubit()\nc1 = qubit()\nwith dagger():\n    h(q0)\ndiscard(q0)\ndiscard(c0)\ndiscard(c1)\nreturn x"),
+    ("Call", "keywords", "q0 = qubit()\nc0 = qubit()\nc1 = qubit()\nwith power(2, k=1):\n    h(q0)\ndiscard(q0)\ndiscard(c0)\ndiscard(c1)\nreturn x", "q0 = qubit()\nc0 = qubit()\nc1 = qubit()\nwith power(2):\n    h(q0)\ndiscard(q0)\ndiscard(c0)\ndiscard(c1)\nreturn x"),
+    ("Call", "keywords", "q0 = qubit()\nc0 = qubit()\nc1 = qubit()\nwith control(c0, **x):\n    h(q0)\ndiscard(q0)\ndiscard(c0)\ndiscard(c1)\nreturn x", "q0 = qubit()\nc0 = qubit()\nc1 = qubit()\nwith control(c0):\n    h(q0)\ndiscard(q0)\ndiscard(c0)\ndiscard(c1)\nreturn x"),
+    ("Call", "args", "q0 = qubit()\nc0 = qubit()\nc1 = qubit()\nwith control(c0, c1):\n    h(q0)\ndiscard(q0)\ndiscard(c0)\ndiscard(c1)\nreturn x", "q0 = qubit()\nc0 = qubit()\nc1 = qubit()\nwith control(c0):\n    h(q0)\ndiscard(q0)\ndiscard(c0)\ndiscard(c1)\nreturn x"),
+    ("Call", "args", "q0 = qubit()\nc0 = qubit()\nc1 = qubit()\nwith control(c0):\n    h(q0)\ndiscard(q0)\ndiscard(c0)\ndiscard(c1)\nreturn x", "q0 = qubit()\nc0 = qubit()\nc1 = qubit()\nwith control(c1):\n    h(q0)\ndiscard(q0)\ndiscard(c0)\ndiscard(c1)\nreturn x"),
+    ("Call", "args", "q0 = qubit()\nc0 = qubit()\nc1 = qubit()\nwith power(2):\n    h(q0)\ndiscard(q0)\ndiscard(c0)\ndiscard(c1)\nreturn x", "q0 = qubit()\nc0 = qubit()\nc1 = qubit()\nwith power(3):\n    h(q0)\ndiscard(q0)\ndiscard(c0)\ndiscard(c1)\nreturn x"),
+    ("Call", "args", "q0 = qubit()\nc0 = qubit()\nc1 = qubit()\nwith dagger(1):\n    h(q0)\ndiscard(q0)\ndiscard(c0)\ndiscard(c1)\nreturn x", "q0 = qubit()\nc0 = qubit()\nc1 = qubit()\nwith dagger():\n    h(q0)\ndiscard(q0)\ndiscard(c0)\ndiscard(c1)\nreturn x"),
+    ("Call", "func", "q0 = qubit()\nc0 = qubit()\nc1 = qubit()\nwith dagger():\n    h(q0)\ndiscard(q0)\ndiscard(c0)\ndiscard(c1)\nreturn x", "q0 = qubit()\nc0 = qubit()\nc1 = qubit()\nwith power(1):\n    h(q0)\ndiscard(q0)\ndiscard(c0)\ndiscard(c1)\nreturn x"),
+    ("Starred", "value", "q0 = qubit()\nc0 = qubit()\nc1 = qubit()\nwith control(*c0):\n    h(q0)\ndiscard(q0)\ndiscard(c0)\ndiscard(c1)\nreturn x", "q0 = qubit()\nc0 = qubit()\nc1 = qubit()\nwith control(c0):\n    h(q0)\ndiscard(q0)\ndiscard(c0)\ndiscard(c1)\nreturn x"),
+    ("With", "items", "q0 = qubit()\nc0 = qubit()\nc1 = qubit()\nwith control(c0), dagger:\n    h(q0)\ndiscard(q0)\ndiscard(c0)\ndiscard(c1)\nreturn x", "q0 = qubit()\nc0 = qubit()\nc1 = qubit()\nwith control(c0):\n    h(q0)\ndiscard(q0)\ndiscard(c0)\ndiscard(c1)\nreturn x"),
+    ("With", "items", "q0 = qubit()\nc0 = qubit()\nc1 = qubit()\nwith dagger:\n    h(q0)\ndiscard(q0)\ndiscard(c0)\ndiscard(c1)\nreturn x", "q0 = qubit()\nc0 = qubit()\nc1 = qubit()\nwith power(1):\n    h(q0)\ndiscard(q0)\ndiscard(c0)\ndiscard(c1)\nreturn x"),
+    ("withitem", "optional_vars", "q0 = qubit()\nc0 = qubit()\nc1 = qubit()\nwith dagger as d:\n    h(q0)\ndiscard(q0)\ndiscard(c0)\ndiscard(c1)\nreturn x", "q0 = qubit()\nc0 = qubit()\nc1 = qubit()\nwith dagger:\n    h(q0)\ndiscard(q0)\ndiscard(c0)\ndiscard(c1)\nreturn x"),
+    ("withitem", "context_expr", "q0 = qubit()\nc0 = qubit()\nc1 = qubit()\nwith control(c0):\n    h(q0)\ndiscard(q0)\ndiscard(c0)\ndiscard(c1)\nreturn x", "q0 = qubit()\nc0 = qubit()\nc1 = qubit()\nwith control(c1):\n    h(q0)\ndiscard(q0)\ndiscard(c0)\ndiscard(c1)\nreturn x"),
 ]
 
 PRELUDE_EXTRA = (
     "power = dagger = control = 0\n"
+    "from guppylang.std.quantum import qubit, h, discard\n"
     "def deco(fn):\n    return fn\n"
     "@guppy\ndef g0(y: int) -> int:\n    return y\n"
     "@guppy\ndef g1(y: int) -> int:\n    return y + 1\n"
@@ -362,7 +387,10 @@ def _canon(g):
         d = h[n]
         parts.append(f"{n.idx}^{d.parent.idx if d.parent is not None else -1}:{feed.op_name(d.op)}:{d.op!r}")
     links = sorted(f"{a.node.idx}.{a.offset}>{b.node.idx}.{b.offset}" for a, b in h.links())
-    return "\n".join(parts) + "\n" + " ".join(links)
+    import re as _re
+
+    # definition ids are session counters (they appear in the names of lifted with-blocks / nested functions)
+    return _re.sub(r"DefId\(id=\d+\)", "DefId(#)", "\n".join(parts)) + "\n" + " ".join(links)
 
 
 def _classify(with_body, base_body):
@@ -550,7 +578,7 @@ EXPR_CONTEXTS = {
     "subscript-target-index": "t0 = array(1, 2, 3)\nt0[@] = 5\nreturn x",
     "subscript-target-value": "t0 = array(1, 2, 3)\nt0[0] = @\nreturn x",
     "augassign-target-index": "t0 = array(1, 2, 3)\nt0[@] += 1\nreturn x",
-    "with-item": "with power(@):\n    pass\nreturn x",
+    "with-item-arg": "q0 = qubit()\nwith power(nat(@)):\n    h(q0)\ndiscard(q0)\nreturn x",
     "tuple-elt": "w = (1, @)\nreturn w[1]",
     "ifexp-branch": "w = @ if b else 0\nreturn w",
     "boolop-operand": "w = b and @ > 0\nreturn x",
@@ -566,6 +594,7 @@ def tie_expr_contexts(ctx):
     rng = ctx.rng
     names = list(EXPR_CONTEXTS)
     keys = sorted({(k, f) for k, f, _w, _b in EXPR_CLAUSES})
+    _ensure_gen(ctx)
     model = dict(zip(keys, ctx.driver("C32", [f"disp {k} {f}" for k, f in keys])))
     base_ok = {}
     for k, f, w, b in EXPR_CLAUSES:
@@ -618,6 +647,7 @@ def tie(ctx):
             cases.append((k, f, wrap(w), wrap(b) if b is not None else None, c))
     # model dispositions from the regenerated table
     keys = sorted({(k, f) for k, f, *_ in cases})
+    _ensure_gen(ctx)
     replies = ctx.driver("C32", [f"disp {k} {f}" for k, f in keys])
     model = dict(zip(keys, replies))
     seen = set()
